@@ -323,7 +323,7 @@ func c26(in, out string, shard, of int) {
 		{"a", "b", [][2]string{{"a", ""}, {"", "b"}, {"a", "long"}}, [][2]string{{"a", ""}, {"", "b"}}, false},
 		{"", "b", [][2]string{{"", ""}, {"", "long"}}, [][2]string{{"", "long"}}, false},
 		// user passwords consisting of white space only are not empty: permissions apply
-		{"sp", "b", [][2]string{{"sp", ""}, {"sp", "long"}, {"", ""}}, [][2]string{{"sp", ""}}, true},
+		{"sp", "b", [][2]string{{"sp", ""}, {"sp", "long"}}, [][2]string{{"sp", ""}}, true},
 		{"tab", "b", [][2]string{{"tab", ""}}, nil, true},
 	}
 	if h.Arg("--pairs") == "full" {
